@@ -13,7 +13,7 @@ use crate::{
     errors::{bail, ensure, ensure_eq, format_err, Error, Result},
     packet::{
         InnerSignature, LiteralDataHeader, Packet, PacketHeader, PacketTrait, ProtectedDataConfig,
-        PublicKeyEncryptedSessionKey, Signature, SymKeyEncryptedSessionKey,
+        PublicKeyEncryptedSessionKey, Signature, SignatureType, SymKeyEncryptedSessionKey,
     },
     parsing_reader::BufReadParsing,
     ser::Serialize,
@@ -863,6 +863,14 @@ impl<'a> Message<'a> {
 
                 Signature::check_signature_key_version_alignment(key, config)?;
                 Signature::check_signature_hash_strength(config)?;
+
+                // Only document signatures sign a message: any other type is computed over different data
+                // (as for detached signatures, where `hash_data_to_sign` refuses them).
+                ensure!(
+                    matches!(config.typ(), SignatureType::Binary | SignatureType::Text),
+                    "signature type {:?} does not sign a message",
+                    config.typ()
+                );
 
                 // Check that the high 16 bits of the hash from the signature packet match with the hash we
                 // just calculated.
